@@ -176,7 +176,12 @@ func (f *decompressor) step() (err error) {
 	f.state.rOffset(startInputSize, startBitsLen)
 
 	if isError(err) || (err == errEndInput && f.eof) {
-		discardSize := f.peekSize - len(f.state.input) - int(state.bitsLen/8)
+		held := int(state.bitsLen / 8)
+		if held < 0 {
+			// the failing code ran past the end of the input: nothing is held back
+			held = 0
+		}
+		discardSize := f.peekSize - len(f.state.input) - held
 		if discardSize > 0 {
 			_, err := f.rBuf.Discard(discardSize)
 			if err != nil {
